@@ -186,6 +186,8 @@ func runC16(p *core.Program, r *core.Report) {
 	r.Rule("C16.decodable", "batch body is the concatenation of WritePack encodings of the records", 2)
 	r.Rule("C16.queue", "the queue the sender drains keeps its contract (C11's put/get/timeout/wake-up/FIFO rules on util/queue.RequestQueue): the timed get gives up when its time is over, so a partial batch is flushed by the wait limit", 8)
 	importQueueRules(p, r, "C16.queue")
+	r.Rule("C16.zip-complete", "the gzip stream handed back by DoZip is complete: the compressor's Close() has run before its buffer is read", 1)
+	gzipClosedBeforeRead(p, r, "C16.zip-complete", []string{"util/compressutil"})
 	c16Defaults(p, r)
 	for _, name := range []string{"Append", "sendAndClear", "SendDirect", "doZip", "run"} {
 		if zipMethod(p, name) == nil {
